@@ -15,7 +15,7 @@ PROPS = {
     "C17": [("u_dynvis", "quick"), ("u_ceffect", "quick"), ("u_block", "quick"), ("u_inherent", "quick"), ("u_dynpayload", "quick"), ("u_dynimpl", "quick"), ("u_dynorigin", "quick"), ("u_dyngate", "quick"), ("u_traitname", "quick"), ("u_implname", "quick"), ("u_selfty", "quick"), ("u_concrete", "quick"), ("u_mtraitcall", "quick"), ("u_overload", "quick"), ("u_boundmeth", "quick"), ("u_dynreq", "quick"), ("u_inhname", "quick"), ("u_coerce", "quick"), ("u_fnbody", "quick"), ("u_traitlookup", "quick")],
     "C16": [("u_overload", "quick"), ("u_pkgallow", "quick"), ("u_orphan", "quick"), ("u_topo", "quick"), ("u_depenv", "quick"), ("u_cohere", "quick"), ("u_loadpkg", "quick"), ("u_scope", "quick"), ("u_deprec", "quick"), ("u_link", "quick"), ("u_tygate", "quick"), ("u_lowertype", "quick"), ("u_pathgate", "quick")],
     "C10": [("u_intlit", "quick"), ("u_dcefx", "quick"), ("u_tastlit", "quick"), ("u_golit", "quick"), ("u_cexpr", "quick"), ("u_numarms", "quick"), ("u_fmtverb", "quick"), ("u_corefloat", "quick"), ("u_floatlit", "quick"), ("u_intcase", "quick"), ("u_gotype", "quick"), ("u_imm", "quick"), ("u_goops", "quick"), ("u_dynpayload", "quick")],
-    "C07": [("u_munify", "quick"), ("u_msubst", "quick"), ("u_mcall", "quick"), ("u_tmono", "quick"), ("u_minst", "quick"), ("u_fieldinst", "quick"), ("u_mtraitcall", "quick"), ("u_mwork", "quick"), ("u_instname", "quick")],
+    "C07": [("u_munify", "quick"), ("u_msubst", "quick"), ("u_mcall", "quick"), ("u_tmono", "quick"), ("u_minst", "quick"), ("u_fieldinst", "quick"), ("u_mtraitcall", "quick"), ("u_mwork", "quick"), ("u_instname", "quick"), ("u_ctorty", "quick")],
     "C15": [("u_art", "quick"), ("u_link", "quick"), ("u_deprec", "quick"), ("u_clilink", "quick")],
     "C09": [("u_dcefx", "quick"), ("u_ceffect", "quick"), ("u_dceblk", "quick"), ("u_ctrl", "quick"), ("u_letlow", "quick"), ("u_cexpr", "quick"), ("u_binop", "quick"), ("u_block", "quick"), ("u_matchentry", "quick"), ("u_anf", "quick"), ("u_anfmatch", "quick"), ("u_imm", "quick"), ("u_goops", "quick")],
     "C11": [("u_bp", "quick"), ("u_pratt", "quick"), ("u_strlit", "quick"), ("u_calllower", "quick"), ("u_tylower", "quick"), ("u_floatlit", "quick"), ("u_binlower", "quick")],
